@@ -208,9 +208,9 @@ func runC06(c *explore.Ctx) {
 func runC09(c *explore.Ctx) {
 	var spaces []plSpace
 	if c.Thorough() {
-		spaces = []plSpace{{"E", "ROLL", 5}, {"E", "ROLL+SW", 5}, {"E", "BIGC", 5}, {"E", "BIGC+SW", 4}, {"S2", "ROLL", 4}, {"CH", "BIGC", 3}, {"SP", "BIGC", 3}, {"S2!unclean", "ROLL", 3}, {"CH!unclean", "BIGC", 2}, {"T!unclean", "BIGC", 2}}
+		spaces = []plSpace{{"E", "ROLL", 5}, {"E", "ROLL+SW", 5}, {"E", "BIGC", 5}, {"E", "BIGC+SW", 4}, {"S2", "ROLL", 5}, {"S4", "ROLL", 4}, {"S3", "ROLL", 3}, {"CH", "BIGC", 3}, {"SP", "BIGC", 3}, {"S2!unclean", "ROLL", 3}, {"CH!unclean", "BIGC", 2}, {"T!unclean", "BIGC", 2}}
 	} else {
-		spaces = []plSpace{{"E", "ROLL", 4}, {"E", "ROLL+SW", 3}, {"E", "BIGC", 4}, {"E", "BIGC+SW", 3}, {"S2", "ROLL", 3}, {"SP", "BIGC", 2}, {"CH", "BIGC", 2}, {"S2!unclean", "ROLL", 2}, {"CH!unclean", "BIGC", 1}}
+		spaces = []plSpace{{"E", "ROLL", 4}, {"E", "ROLL+SW", 3}, {"E", "BIGC", 4}, {"E", "BIGC+SW", 3}, {"S2", "ROLL", 4}, {"S4", "ROLL", 3}, {"SP", "BIGC", 2}, {"CH", "BIGC", 2}, {"S2!unclean", "ROLL", 2}, {"CH!unclean", "BIGC", 1}}
 	}
 	runPowerSpaces(c, spaces, true)
 }
@@ -239,7 +239,7 @@ func runPowerSpaces(c *explore.Ctx, spaces []plSpace, afterCloseOnly bool) {
 		memo := recMemo{}
 		sp := sp
 		letters := c06Letters()
-		if bname != "E" && bname != "S2" && bname != "T" {
+		if bname != "E" && bname != "S2" && bname != "T" && bname != "S3" && bname != "S4" {
 			letters = []explore.Op{{Kind: explore.Put, Key: base.Alpha[0]}, {Kind: explore.Put, Key: base.Alpha[len(base.Alpha)-3]}, {Kind: explore.Delete, Key: base.Alpha[0]}}
 			if base.Keys["o0"] != nil {
 				// a key whose slot lives in an overflow bucket: updating it rewrites overflow.pix in place
